@@ -131,7 +131,8 @@ pub fn replay(cases: &[J]) -> J {
     for case in &all {
         tick(&json!({"pre": case["pre"], "cap": case["cap"], "hist": case["hist"]}));
         let (delivered, failed, problems) = run_iterator(case, &path);
-        let exp_delivered: Vec<Vec<u8>> = case["delivered"].as_array().unwrap().iter().map(bytes_of).collect();
+        // the model delivers bytes; the iterator hands out text: bytes that are not UTF-8 arrive as U+FFFD (lossy decoding of the whole line)
+        let exp_delivered: Vec<Vec<u8>> = case["delivered"].as_array().unwrap().iter().map(|l| String::from_utf8_lossy(&bytes_of(l)).into_owned().into_bytes()).collect();
         let exp_failed = case["failed"].as_bool().unwrap();
         let big = bytes_of(&case["content"]).len() > 200;
         let show = |ls: &Vec<Vec<u8>>| -> J { if big { json!(ls.iter().map(|l| format!("{} bytes", l.len())).collect::<Vec<_>>()) } else { json!(ls.iter().map(|l| jbytes(l)).collect::<Vec<_>>()) } };
@@ -227,7 +228,7 @@ pub fn replay_exec(cases: &[J]) -> J {
                 }
             }
         }
-        let exp_delivered: Vec<Vec<u8>> = case["delivered"].as_array().unwrap().iter().map(bytes_of).collect();
+        let exp_delivered: Vec<Vec<u8>> = case["delivered"].as_array().unwrap().iter().map(|l| String::from_utf8_lossy(&bytes_of(l)).into_owned().into_bytes()).collect();
         let exp_counts: Vec<u64> = parse_hist(case).iter().filter(|(e, _)| e != "A").map(|(_, n)| *n).collect();
         let exp_failed = case["failed"].as_bool().unwrap();
         let stopped = stdout.contains("\u{1}S");
